@@ -93,7 +93,9 @@ func checkC01(c *Ctx) {
 	c.NotDecided("what net/http and httputil do with the bytes (hop-by-hop headers, framing, 1xx, HEAD); path/query joining for backend base paths; timing of flushes")
 
 	ws := c.wrappers()
-	onPath := func(w *Wrapper) bool { return w.Key == "loadbalancer.responseWriter" || w.Key == "plugins.statusRecorder" }
+	onPath := func(w *Wrapper) bool {
+		return w.Key == "loadbalancer.responseWriter" || w.Key == "plugins.statusRecorder"
+	}
 	n := 0
 	for _, w := range ws {
 		if onPath(w) {
@@ -597,9 +599,11 @@ func checkC06(c *Ctx) {
 		}
 		// RemoteAddr goes through SplitHostPort
 		split := false
-		for _, ci := range callsIn(fn) {
-			if CalleeName(ci) == "net.SplitHostPort" && strings.Contains(p.Desc(ci.Common().Args[0], nil), "http.Request.RemoteAddr") {
-				split = true
+		for f := range seen {
+			for _, ci := range callsIn(f) {
+				if CalleeName(ci) == "net.SplitHostPort" && strings.Contains(p.Desc(ci.Common().Args[0], nil), "http.Request.RemoteAddr") {
+					split = true
+				}
 			}
 		}
 		if fields["RemoteAddr"] && !split {
